@@ -91,23 +91,19 @@ func (db *DB) repairCompactions() error {
 		absReplacementPath := filepath.Join(db.basePath, meta.ReplacementPath)
 
 		log.Printf("finishing compaction in %s into %s", absWritePath, absReplacementPath)
-		err := os.RemoveAll(absReplacementPath)
-		if err != nil {
-			return err
-		}
-
-		err = os.Rename(absWritePath, absReplacementPath)
-		if err != nil {
-			return err
-		}
-
+		// All compacted tables (that includes the replacement path) must be removed before the rename, exactly as the compaction
+		// itself would have done it. As long as the flagged compaction folder exists, an interrupted removal is repeated by the
+		// next Open. After the rename nothing would finish the removal of a half-deleted table anymore.
 		for _, sstablePath := range meta.SstablePaths {
-			if sstablePath != meta.ReplacementPath {
-				err := os.RemoveAll(filepath.Join(db.basePath, sstablePath))
-				if err != nil {
-					return err
-				}
+			err := os.RemoveAll(filepath.Join(db.basePath, sstablePath))
+			if err != nil {
+				return err
 			}
+		}
+
+		err := os.Rename(absWritePath, absReplacementPath)
+		if err != nil {
+			return err
 		}
 	}
 
